@@ -634,6 +634,14 @@ class C19(Check):
                 eff = self._effective(p, ev)
                 wf = nameres[1][len(case["params"]) + si]
                 si += 1
+                if not wf and not cl[2]:
+                    # no well-shaped instance exists for these parameters (the call must be rejected); whatever
+                    # was returned instead, "at least as many jobs as machines" is a statement about the instance
+                    fails.append(Failure(
+                        "oracle", "shape:" + CLAUSES[2],
+                        f"event #{idx} {self._short(ev)}: instance '{''.join(map(chr, name))}' of generator {i} has "
+                        f"fewer jobs than machines although that is disallowed (parameters {eff[:10]} admit no "
+                        f"instance at all: the call had to be rejected)", expected=eff[:10], observed=inst))
                 if wf:
                     for cname, ok in zip(CLAUSES, cl):
                         if not ok:
